@@ -244,6 +244,7 @@ pub fn run(ctx: &mut Ctx) -> Result<(), Violation> {
     let wc = ctx.tier.cases(6_000, 200_000);
     crate::wide::stage_model(ctx, "wide-functions", wc)?;
     crate::wide::stage_collisions(ctx, "operands-with-equal-hash-sub-diagrams", "model")?;
+    crate::wide::fuzz_kind(ctx, "model", replay)?;
 
     // diagrams that do not come from the extracting environment (plain values such as
     // BDD::<usize>::from(named) produces, or another environment's nodes): all 3- and 4-variable functions
